@@ -1,22 +1,16 @@
 #!/bin/bash
-# usage: try_patch.sh <patch.diff> [props...]  -- applies the patch to /repo, runs quick checks, reverts.
+# usage: try_patch.sh <patch.diff> [props...]  -- runs the quick checks against /repo + patch as an in-memory overlay (never edits /repo)
 set -u
-P="$1"; shift
+P="$(readlink -f "$1")"; shift
 PROPS="${@:-C01 C02 C03 C04 C05 C06 C07 C08 C09 C10 C11 C12 C13 C14 C15 C16 C17 C18 C19 C20}"
-cd /repo || exit 9
-if ! git apply --check "$P" 2>/dev/null; then echo "PATCH DOES NOT APPLY: $P"; exit 9; fi
-git apply "$P"
 cd /verif
 for p in $PROPS; do
   [ -f hgv/props/${p,,}.py ] || continue
-  out=$(HGV_NO_EVIDENCE=1 python3-vt -m hgv check $p 2>&1 | grep -v WARNING)
-  rc=$?
+  out=$(HGV_PATCH="$P" HGV_EVIDENCE_DIR=/tmp/hgv_try_evidence python3-vt -m hgv check $p 2>&1 | grep -v WARNING)
   nviol=$(echo "$out" | grep -c "^VIOLATION")
   nerr=$(echo "$out" | grep -c "^ANALYSIS-ERROR")
   if [ "$nviol" != "0" ] || [ "$nerr" != "0" ]; then
     echo "== $p: violations=$nviol errors=$nerr"
-    echo "$out" | grep "^FINDING\|^ANALYSIS-ERROR" | cut -c1-400 | head -5
+    echo "$out" | grep "^FINDING\|^ANALYSIS-ERROR" | cut -c1-400 | head -4
   fi
 done
-git -C /repo checkout -- .
-echo "(reverted)"
